@@ -435,17 +435,233 @@ impl Assembler {
     pub open spec fn recvd_bound(&self) -> nat { match self.state { State::Unordered { recvd } => recvd.bound(), _ => 0 } }
     /// some buffer holds stream offset k
     pub open spec fn covers(&self, k: int) -> bool { seq_covers(self.bufs(), k) }
-    /// Assembler::defragment: contract boundary for now (the proof of the real body is in progress: design/probes/wip_assembler_defragment_real.rs)
-    #[verifier::external_body]
-    pub fn defragment(&mut self)
+//@ extract quinn-proto/src/connection/assembler.rs :: impl Assembler::fn defragment
+//@ vis pub
+//@ attr #[verifier::rlimit(100)]
+//@ contract
         requires old(self).wf()
         ensures final(self).wf(), final(self).state == old(self).state, final(self).end == old(self).end, final(self).bytes_read == old(self).bytes_read,
             forall|s: Seq<u8>| old(self).consistent(s) ==> final(self).consistent(s),
+            // nothing that is still to be delivered is lost (ordered mode drops what lies below the read index)
             forall|k: int| old(self).covers(k) && (final(self).state is Ordered ==> k >= final(self).bytes_read) ==> final(self).covers(k),
             pairwise_disjoint(final(self).bufs()),
             // ordered mode: nothing that was already consumed stays buffered
             final(self).state is Ordered ==> forall|i: int| 0 <= i < final(self).bufs().len() ==> (#[trigger] final(self).bufs()[i]).offset >= final(self).bytes_read,
-    { unimplemented!() }
+//@ at-start
+        let ghost hv = self.bufs();
+        let ghost me0 = *self;   // (a local named `old` shadows old(..) below)
+//@ after let mut buffers = old.into_sorted_vec();
+        let ghost b0 = buffers@;
+        let ghost n = b0.len() as int;
+        let ghost mut fin: Seq<Buffer> = Seq::empty();
+        proof {
+            assert forall|i: int| 0 <= i < n implies buf_ok(#[trigger] b0[i], self.end) by {
+                let j = choose|j: int| 0 <= j < hv.len() && hv[j] == b0[i];
+            }
+            // descending in the vector, so ascending in processing order
+            assert forall|a: int, b: int| 0 <= a <= b < n implies (#[trigger] b0[a]).offset >= (#[trigger] b0[b]).offset by {
+                assert(!(b0[a].cmp_spec(&b0[b]) is Greater));
+            }
+            assert(b0.skip(n) =~= Seq::<Buffer>::empty());
+        }
+//@ after let mut offset = match self.state
+        let ghost start = offset;
+//@ loop-iter 0 it
+//@ loop 0
+            invariant
+                it.seq().len() == n, fin.len() == it.index@, n == b0.len(),
+                forall|i: int| 0 <= i < n ==> *(#[trigger] it.seq()[i]) == b0[n - 1 - i],
+                forall|i: int| 0 <= i < it.index@ ==> *final(it.seq()[i]) == #[trigger] fin[i],
+                forall|i: int| 0 <= i < n ==> buf_ok(#[trigger] b0[i], self.end),
+                forall|a: int, b: int| 0 <= a <= b < n ==> (#[trigger] b0[a]).offset >= (#[trigger] b0[b]).offset,
+                self.end == me0.end, self.end <= 0x4000_0000_0000_0000, self.bytes_read == me0.bytes_read, self.state == me0.state,
+                start <= offset <= self.end || (offset == start),
+                self.buffered + start <= offset, fragmented_buffered <= self.buffered,
+                start <= 0x4000_0000_0000_0000,
+                // I1..I5: what has been processed
+                forall|i: int| 0 <= i < it.index@ ==> (#[trigger] fin[i]).trim_of(b0[n - 1 - i]) && fin[i].offset >= start && fin[i].end() <= offset
+                    && fin[i].bytes@.len() <= fin[i].allocation_size && (fin[i].defragmented ==> fin[i].allocation_size == fin[i].bytes@.len())
+                    && (!fin[i].defragmented ==> 0 < fin[i].bytes@.len() <= 0xffff_ffff),
+                forall|i: int, j: int| 0 <= i < j < it.index@ ==> (#[trigger] fin[i]).end() <= (#[trigger] fin[j]).offset,
+                // I6, I7: accounting
+                self.buffered == sum_len(fin), sum_len(fin) <= sum_len(b0.skip(n - it.index@)),
+                // I8: everything between the latest original's start and the running end is held by a processed buffer
+                forall|k: int| (if it.index@ == 0 { start as int } else if b0[n - it.index@].offset > start { b0[n - it.index@].offset as int } else { start as int }) <= k < offset ==> seq_covers(fin, k),
+                // I9: no offset at or above `start` that an original held has been lost
+                forall|k: int, i: int| 0 <= i < it.index@ && k >= start && (#[trigger] b0[n - 1 - i]).offset <= k < b0[n - 1 - i].end() ==> #[trigger] seq_covers(fin, k),
+//@ loop-start 0
+            let ghost offset_in = offset;
+            let ghost idx = it.index@;
+            proof {
+                assert(*chunk == b0[n - 1 - idx]);
+                assert(buf_ok(b0[n - 1 - idx], self.end));
+            }
+//@ loop-end 0
+            proof {
+                let o = b0[n - 1 - idx];
+                let f = *chunk;
+                let fin1 = fin.push(f);
+                lemma_sum_push(fin, f);
+                lemma_sum_skip(b0, n - 1 - idx);
+                assert forall|k: int| #![trigger seq_covers(fin1, k)] seq_covers(fin, k) implies seq_covers(fin1, k) by { lemma_covers_push(fin, f, k); }
+                assert forall|k: int| (if o.offset > start { o.offset as int } else { start as int }) <= k < offset implies seq_covers(fin1, k) by {
+                    if k < offset_in {
+                        if idx > 0 { assert(b0[n - idx].offset <= o.offset); }
+                        assert(seq_covers(fin, k));
+                    } else {
+                        lemma_covers_push(fin, f, k);
+                    }
+                }
+                assert forall|k: int, i: int| 0 <= i < idx + 1 && k >= start && (#[trigger] b0[n - 1 - i]).offset <= k < b0[n - 1 - i].end() implies #[trigger] seq_covers(fin1, k) by {
+                    if i < idx { assert(seq_covers(fin, k)); }
+                }
+                fin = fin1;
+            }
+//@ after for chunk in buffers.iter_mut().rev()
+        proof {
+            assert(fin.len() == n);
+            assert forall|i: int| 0 <= i < n implies buffers@[i] == fin[n - 1 - i] by {
+                let k = n - 1 - i;
+                assert(fin[k].offset >= start);
+            }
+            assert(fin.take(0) =~= Seq::<Buffer>::empty());
+            // what survived the first pass still holds the sender's bytes
+            assert forall|s: Seq<u8>, i: int| #![trigger fin[i].matches(s)] me0.consistent(s) && 0 <= i < n && fin[i].bytes@.len() > 0 implies fin[i].matches(s) by {
+                let o = b0[n - 1 - i];
+                let j = choose|j: int| 0 <= j < hv.len() && hv[j] == o;
+                assert(hv[j].matches(s));
+                assert(fin[i].trim_of(o));
+            }
+        }
+//@ loop-iter 1 it
+//@ loop 1
+            invariant
+                it.seq().len() == n, fin.len() == n, forall|i: int| 0 <= i < n ==> #[trigger] it.seq()[i] == fin[i],
+                self.end == me0.end, self.end <= 0x4000_0000_0000_0000, self.bytes_read == me0.bytes_read, self.state == me0.state,
+                self.buffered == sum_len(fin), self.allocated == self.buffered, start <= 0x4000_0000_0000_0000,
+                forall|i: int| 0 <= i < n ==> (#[trigger] fin[i]).offset >= start && fin[i].end() <= self.end
+                    && fin[i].bytes@.len() <= fin[i].allocation_size && (fin[i].defragmented ==> fin[i].allocation_size == fin[i].bytes@.len())
+                    && (!fin[i].defragmented ==> fin[i].bytes@.len() > 0),
+                forall|i: int, j: int| 0 <= i < j < n ==> (#[trigger] fin[i]).end() <= (#[trigger] fin[j]).offset,
+                forall|s: Seq<u8>, i: int| #![trigger fin[i].matches(s)] me0.consistent(s) && 0 <= i < n && fin[i].bytes@.len() > 0 ==> fin[i].matches(s),
+                // the rebuilt heap
+                forall|j: int| 0 <= j < heap_view(self.data).len() ==> buf_ok(#[trigger] heap_view(self.data)[j], self.end)
+                    && heap_view(self.data)[j].allocation_size == heap_view(self.data)[j].bytes@.len() && heap_view(self.data)[j].offset >= start,
+                pairwise_disjoint(heap_view(self.data)),
+                forall|j: int, i: int| 0 <= j < heap_view(self.data).len() && it.index@ <= i < n ==> (#[trigger] heap_view(self.data)[j]).end() <= (#[trigger] fin[i]).offset,
+                forall|s: Seq<u8>, j: int| #![trigger heap_view(self.data)[j].matches(s)] me0.consistent(s) && 0 <= j < heap_view(self.data).len() ==> heap_view(self.data)[j].matches(s),
+                // the merge buffer
+                (offset as int) <= 0x4000_0000_0000_0000, buffer@.len() <= 0x4000_0000_0000_0000,
+                buffer@.len() > 0 ==> (offset as int) >= start && (offset as int) + buffer@.len() <= self.end,
+                buffer@.len() > 0 ==> forall|i: int| it.index@ <= i < n ==> (offset as int) + buffer@.len() <= (#[trigger] fin[i]).offset,
+                buffer@.len() > 0 ==> forall|j: int| 0 <= j < heap_view(self.data).len() ==> (#[trigger] heap_view(self.data)[j]).end() <= (offset as int) || heap_view(self.data)[j].offset >= (offset as int) + buffer@.len(),
+                forall|s: Seq<u8>| me0.consistent(s) && buffer@.len() > 0 ==> (offset as int) + buffer@.len() <= s.len() && buffer@ =~= s.subrange((offset as int) as int, (offset as int) + buffer@.len()),
+                // accounting and coverage
+                sum_len(heap_view(self.data)) + buffer@.len() == sum_len(fin.take(it.index@)),
+                forall|k: int| seq_covers(fin.take(it.index@), k) ==> seq_covers(heap_view(self.data), k) || (offset as int) <= k < (offset as int) + buffer@.len(),
+//@ loop-start 1
+            let ghost idx = it.index@;
+            let ghost h0 = heap_view(self.data);
+            let ghost buf0 = buffer@;
+            let ghost off0 = offset as int;
+            proof {
+                assert(chunk == fin[idx]);
+                lemma_sum_take(fin, idx);
+                assert forall|k: int| seq_covers(fin.take(idx + 1), k) implies seq_covers(fin.take(idx), k) || fin[idx].offset <= k < fin[idx].end() by {
+                    lemma_covers_take(fin, idx, k);
+                }
+            }
+//@ loop-end 1
+            proof {
+                let hn = heap_view(self.data);
+                assert(hn == h0 || (hn.len() == h0.len() + 1 && hn =~= h0.push(hn.last())));
+                assert forall|k: int| seq_covers(h0, k) implies seq_covers(hn, k) by {
+                    if hn != h0 { lemma_covers_push(h0, hn.last(), k); }
+                }
+                assert forall|k: int| seq_covers(fin.take(idx + 1), k) implies seq_covers(hn, k) || (offset as int) <= k < (offset as int) + buffer@.len() by {
+                    lemma_covers_take(fin, idx, k);
+                    if hn != h0 { lemma_covers_push(h0, hn.last(), k); }
+                    if seq_covers(fin.take(idx), k) {
+                        assert(seq_covers(h0, k) || off0 <= k < off0 + buf0.len());
+                    }
+                }
+            }
+//@ before if !buffer.is_empty() #0
+        let ghost h0 = heap_view(self.data);
+        let ghost buf0 = buffer@;
+        let ghost off0 = offset as int;
+        proof { assert(fin.take(n) =~= fin); }
+//@ after self.data .push(Buffer::new_defragmented( #1
+            proof {
+                let m = heap_view(self.data).last();
+                assert(heap_view(self.data) =~= h0.push(m));
+                assert(m.offset == off0 && m.bytes@ == buf0 && m.allocation_size == buf0.len() && m.defragmented);
+                lemma_sum_push(h0, m);
+                lemma_disjoint_push(h0, m);
+                assert forall|k: int| seq_covers(h0, k) || m.offset <= k < m.end() implies seq_covers(h0.push(m), k) by { lemma_covers_push(h0, m, k); }
+                assert forall|j: int| 0 <= j < h0.push(m).len() implies buf_ok(#[trigger] h0.push(m)[j], self.end)
+                    && h0.push(m)[j].allocation_size == h0.push(m)[j].bytes@.len() && h0.push(m)[j].offset >= start by {
+                    if j < h0.len() { assert(h0.push(m)[j] == h0[j]); }
+                }
+                assert forall|s: Seq<u8>, j: int| #![trigger h0.push(m)[j].matches(s)] me0.consistent(s) && 0 <= j < h0.push(m).len() implies h0.push(m)[j].matches(s) by {
+                    if j < h0.len() { assert(h0.push(m)[j] == h0[j]); }
+                }
+            }
+//@ at-end
+        proof {
+            let h = self.bufs();
+            lemma_sum_alloc_eq(h);
+            assert(self.buffered == sum_len(h));
+            // permutation: the sorted vector has the same total as the old heap
+            lemma_sum_len_is_seq_sum(b0);
+            lemma_sum_len_is_seq_sum(hv);
+            assert(b0.skip(0) =~= b0);
+            assert(sum_len(h) <= sum_len(hv));
+            assert forall|k: int| me0.covers(k) && (self.state is Ordered ==> k >= self.bytes_read) implies self.covers(k) by {
+                let j = choose|j: int| 0 <= j < hv.len() && (#[trigger] hv[j]).offset <= k < hv[j].end();
+                assert(b0.contains(hv[j]));
+                let i = choose|i: int| 0 <= i < b0.len() && b0[i] == hv[j];
+                assert(b0[n - 1 - (n - 1 - i)] == hv[j]);
+                assert(seq_covers(fin, k));
+            }
+        }
+//@ after self.data .push(Buffer::new_defragmented( #0
+                    proof {
+                        let m = heap_view(self.data).last();
+                        assert(heap_view(self.data) =~= h0.push(m));
+                        assert(m.offset == off0 && m.bytes@ == buf0 && m.allocation_size == buf0.len() && m.defragmented);
+                        lemma_sum_push(h0, m);
+                        lemma_disjoint_push(h0, m);
+                        assert forall|k: int| seq_covers(h0, k) || m.offset <= k < m.end() implies seq_covers(h0.push(m), k) by { lemma_covers_push(h0, m, k); }
+                        assert forall|j: int| 0 <= j < h0.push(m).len() implies buf_ok(#[trigger] h0.push(m)[j], self.end)
+                            && h0.push(m)[j].allocation_size == h0.push(m)[j].bytes@.len() && h0.push(m)[j].offset >= start by {
+                            if j < h0.len() { assert(h0.push(m)[j] == h0[j]); }
+                        }
+                        assert forall|s: Seq<u8>, j: int| #![trigger h0.push(m)[j].matches(s)] me0.consistent(s) && 0 <= j < h0.push(m).len() implies h0.push(m)[j].matches(s) by {
+                            if j < h0.len() { assert(h0.push(m)[j] == h0[j]); }
+                        }
+                    }
+//@ after buffer.extend_from_slice(&chunk.bytes);
+            proof {
+                assert(chunk.bytes@.len() > 0);
+                assert forall|s: Seq<u8>| me0.consistent(s) implies (offset as int) + buffer@.len() <= s.len() && buffer@ =~= s.subrange(offset as int, (offset as int) + buffer@.len()) by {
+                    assert(fin[idx].matches(s));
+                }
+            }
+//@ after self.data.push(chunk);
+                    proof {
+                        lemma_sum_push(h0, chunk);
+                        lemma_disjoint_push(h0, chunk);
+                        assert forall|k: int| seq_covers(h0, k) || chunk.offset <= k < chunk.end() implies seq_covers(h0.push(chunk), k) by { lemma_covers_push(h0, chunk, k); }
+                        assert forall|j: int| 0 <= j < h0.push(chunk).len() implies buf_ok(#[trigger] h0.push(chunk)[j], self.end)
+                            && h0.push(chunk)[j].allocation_size == h0.push(chunk)[j].bytes@.len() && h0.push(chunk)[j].offset >= start by {
+                            if j < h0.len() { assert(h0.push(chunk)[j] == h0[j]); }
+                        }
+                        assert forall|s: Seq<u8>, j: int| #![trigger h0.push(chunk)[j].matches(s)] me0.consistent(s) && 0 <= j < h0.push(chunk).len() implies h0.push(chunk)[j].matches(s) by {
+                            if j < h0.len() { assert(h0.push(chunk)[j] == h0[j]); }
+                        }
+                    }
+//@ end
 //@ extract quinn-proto/src/connection/assembler.rs :: impl Assembler::fn ensure_ordering
 //@ ret res
 //@ attr #[verifier::rlimit(60)]
@@ -460,7 +676,7 @@ impl Assembler {
                 &&& ((old(self).state is Ordered) == ordered ==> *final(self) == *old(self))
                 &&& final(self).bytes_read == old(self).bytes_read && final(self).end == old(self).end
                 &&& forall|s: Seq<u8>| old(self).consistent(s) ==> final(self).consistent(s)
-                &&& forall|k: int| old(self).covers(k) && (old(self).state is Ordered ==> k >= old(self).bytes_read) ==> final(self).covers(k)
+                &&& forall|k: int| old(self).covers(k) ==> final(self).covers(k)
                 // entering unordered mode: what counts as received is exactly what was consumed plus what is buffered
                 &&& (old(self).state is Ordered && !ordered ==> final(self).state->recvd@ =~= set_int_range(0, old(self).bytes_read as int).union(bufs_set(final(self).bufs(), final(self).bufs().len() as int)))
             },
